@@ -7,6 +7,7 @@ import WrglModel.Model.Time
 import WrglModel.Lemmas.C06Codec
 import WrglModel.Lemmas.C06Hdr
 import WrglModel.Gen.Facts
+import WrglModel.Lemmas.C06BIdx
 namespace Wrgl
 
 /-! ties to the source -/
@@ -96,5 +97,23 @@ theorem C06_save_key_is_hash (H : Bytes → Bytes) (pfx c1 c2 : Bytes) (h : c1 =
 
 /-- non-vacuity: a row crossing 64 KiB in total with a maximal cell meets the hypotheses -/
 example : ∃ b, strListEncode 65535 [List.replicate 3 7, []] = .ok b := ⟨_, rfl⟩
+
+/-! ### block index -/
+
+/-- A block index that fits the format (at most 255 rows, byte offsets, 16-byte hashes) reads back
+    equal to what was written, consuming exactly its own bytes. -/
+theorem C06_blockIndex_roundtrip (b : BIdx) (h : b.codecOk = true) (tail : Bytes) :
+    decodeBIdx (encodeBIdx b ++ tail) = .ok (b, tail) :=
+  bidx_roundtrip b h tail
+
+/-- Re-encoding what was read reproduces the stored bytes; whatever decodes fits the format. -/
+theorem C06_blockIndex_reencode (bs : Bytes) (b : BIdx) (tail : Bytes) (h : decodeBIdx bs = .ok (b, tail)) :
+    encodeBIdx b ++ tail = bs ∧ b.codecOk = true :=
+  bidx_reencode bs b tail h
+
+/-- The encoding is injective, so the content hash identifies the index. -/
+theorem C06_blockIndex_injective (a b : BIdx) (ha : a.codecOk = true) (hb : b.codecOk = true)
+    (h : encodeBIdx a = encodeBIdx b) : a = b :=
+  bidx_encode_injective a b ha hb h
 
 end Wrgl
